@@ -44,6 +44,9 @@ CHECKS = {
  "C17": (MC, "explicit-state BFS to closure over port-status histories on a real Connection (every reachable (_ports,_masks) state expanded once) plus exhaustive enumeration of multipart compositions and interleavings, all fed as spec-encoded bytes through Connection.read()",
          "Port view: the reachable state set over 4 port numbers x 3-4 descriptions closes, so the result holds for histories of any length; in every state len/keys/iteration/values/items/in/[]/get by every number, name and hardware address of the universe and original_ports are compared with a plain dict. Multipart: FLOW/TABLE/PORT/QUEUE bodies of <=3 (quick) / <=4 entries in every composition of <=6 parts, coalesced reads, interleaved with other messages at every position and with a second request's reply before, after and in the middle; the aggregated event must fire once, after the final part, with exactly the reply's entries in order.",
          "Reference = dict / list models in mc/props/c17.py; stats encoders in mc/refs/ofwire_stats.py; replies sharing xid and type are not distinguishable and not judged.", "DESIGN.md 4 C17"),
+ "C11": (MC, "explicit-state BFS with state matching over host-stimulus histories on a closed system of real switches, real controller connections and the real l2_learning component talking real OpenFlow bytes (netsim)",
+         "All sequences of <=5 (quick) / <=7 (thorough) stimuli {frames between 3 hosts + a hub-segment host, unknown unicast, broadcast, multicast, STP and LLDP destinations, host move, idle/hard timeout gaps with sweep} on 1-switch and 2-switch (thorough: 3-switch) topologies with buffering on and off; every frame arrival at every switch is judged against an ideal learning bridge (flood set, known-destination port, most-recent port when the controller handled the frame, no ingress echo, no duplicates, filtered frames dropped, no buffer left occupied).",
+         "Synchronous controller (single-threaded FIFO pump); arrivals absorbed by a still-installed flow do not count as 'most recently seen' (the property's escape clause).", "DESIGN.md 4 C11"),
 }
 
 PENDING_REASON = "check under construction in this round (design in DESIGN.md section 4); not claimed until its harness is committed and silent on the unchanged tree"
